@@ -474,6 +474,14 @@ func typeEdits(g *Gen, prog *GProgram, r *Rand) string {
 		for _, s := range prog.Stmts {
 			if s.Kind == StSend {
 				s.Sent = &GSent{All: true, E: &GExpr{Kind: XAsset, S: "USD"}}
+				switch r.Intn(4) {
+				case 0:
+					// the forms a send-all cannot drain: @world, an unbounded overdraft - also behind a bounded
+					// overdraft written on @world, a cap, or as one member of a list
+					s.Src = &GSource{Kind: SrcOverdraft, E: acct("world"), Bounded: lit("USD", bi(int64(r.Intn(50))))}
+				case 1:
+					s.Src = &GSource{Kind: SrcInorder, Subs: []*GSource{srcAcct("a"), {Kind: SrcOverdraft, E: acct(r.Pick([]string{"world", "b"}))}}}
+				}
 				return "make-send-all"
 			}
 		}
